@@ -307,6 +307,13 @@ func (f *Formatter) walkChildrenArgumentList(typeDef *ast.Definition, childs ast
 		return res
 	}
 
+	// the value of a custom scalar is free-form: no position inside it has a type of its own,
+	// a variable found there is declared with the type the client declared it with
+	if typeDef.Kind == ast.Scalar {
+		f.walkScalarLiteral(res, childs)
+		return res
+	}
+
 	for _, ch := range childs {
 		if ch.Value == nil {
 			continue
@@ -336,6 +343,21 @@ func (f *Formatter) walkChildrenArgumentList(typeDef *ast.Definition, childs ast
 		}
 	}
 	return res
+}
+
+func (f *Formatter) walkScalarLiteral(res map[string]string, childs ast.ChildValueList) {
+	for _, ch := range childs {
+		if ch.Value == nil {
+			continue
+		}
+		if ch.Value.Kind == ast.Variable {
+			if declaredType, ok := f.variableTypes[ch.Value.Raw]; ok {
+				f.setVariableType(res, ch.Value.Raw, declaredType)
+			}
+			continue
+		}
+		f.walkScalarLiteral(res, ch.Value.Children)
+	}
 }
 
 // setVariableType notes the type of a position a variable stands at. When the positions of a variable
